@@ -1,7 +1,9 @@
 import PoxModel.Proofs.ConnHist
+import PoxModel.Proofs.ConnL
 /-! # C09 — connection lifecycle events and the connection registry stay consistent
 
-`run R ops` (Model/Conn.lean, `R = Cfg.repaired`) is the controller side of any number of OpenFlow connections under an
+`run R ops` (Model/Conn.lean; `R = Cfg.rv v`: the code with fixes D03, C09-1, C09-2, C09-3, and — iff `v` — the proposed
+fix C09-5; `v = false` is /repo as it stands, every theorem holds for both values) is the controller side of any number of OpenFlow connections under an
 arbitrary history `ops` of accepts, message arrivals, EOFs, component-initiated disconnects, socket failures and
 `sendToDPID` calls; `(run R ops).2` is the history (newest step first) of what each operation made observable:
 events on the nexus / on the connection, messages written, `_connect` calls, `sendToDPID` results, closes.
@@ -10,6 +12,9 @@ the code with fixes D03, C09-1, C09-2, C09-3 (fixes/*.diff); the `…_defect` th
 first read (`Cfg.head`), the witness each fix removes. -/
 namespace Pox.C09
 open Pox.Conn
+
+variable (v : Bool)
+local notation "R" => Cfg.rv v
 
 /-- **up_once.**  For every history and connection, ConnectionUp is raised at most once (on the nexus, `b = true`, and
 on the connection, `b = false`); and the step that raises it is the arrival, on that connection, of a barrier reply —
@@ -20,7 +25,7 @@ theorem up_once (ops : List Op) (b : Bool) (c : Nat) :
     ∀ later op o earlier a, (run R ops).2 = later ++ (op, o) :: earlier → Out.ev ⟨b, .up, c, a⟩ ∈ o →
       ∃ x d fo, (op = .msg c (.barrierReply x) ∨ op = .msg c (.error x OFPET_BAD_REQUEST OFPBRC_BAD_TYPE)) ∧
         lastFeat earlier c = some (d, fo) ∧ Out.sent c OFPT_BARRIER_REQUEST x ∈ fo := by
-  have h := tinv_run ops
+  have h := tinv_run (v := v) ops
   refine ⟨?_, ?_⟩
   · rw [h.upCnt b c]; split <;> omega
   · intro later op o earlier a hsplit he
@@ -42,7 +47,7 @@ theorem down_once (ops : List Op) (b : Bool) (c : Nat) :
     ((outs (run R ops).2).count (upEv b c) = 1 → ((run R ops).1.conns c).disc = true →
       (outs (run R ops).2).count (downEv b c) = 1 ∨
         (((run R ops).1.conns c).broken = true ∧ Out.closed c ∉ outs (run R ops).2)) := by
-  have h := tinv_run ops
+  have h := tinv_run (v := v) ops
   have hs := h.sinv
   refine ⟨?_, ?_, ?_, ?_, ?_⟩
   · rw [h.downCnt b c]; split <;> omega
@@ -74,24 +79,26 @@ theorem down_once (ops : List Op) (b : Bool) (c : Nat) :
       have := hs.lost c hu' hd (by simpa using hdr)
       simp [this.1, this.2]
 
-/-- **registry_exact.**  Provided each connection's features replies all name the same datapath id: whatever the nexus
+/-- **registry_exact.**  With C09-5 repaired (`v = true`) unconditionally, and for the code as it stands provided each
+connection's features replies all name the same datapath id: whatever the nexus
 has registered under a key is a connection that exists, is announced (ConnectionUp raised), is not disconnected, and has
 that key as its datapath id (so no `None` key); the entry under a key is *exactly* the connection most recently
-registered under it (`nexus._connect`: at ConnectionUp, or at a later features reply) if that connection is still live,
-and absent otherwise; and `sendToDPID d` answers `False` and writes nothing when `d` has no entry, and otherwise writes
+registered under it (`nexus._connect`: at ConnectionUp, or at a later features reply) if that connection is still live
+and still has that datapath id, and absent otherwise; and `sendToDPID d` answers `False` and writes nothing when `d` has no entry, and otherwise writes
 the bytes to exactly that connection's socket (or, if that socket has failed, writes nothing) and answers `True`. -/
-theorem registry_exact (ops : List Op) (hsd : SameDpid ops) :
+theorem registry_exact (ops : List Op) (hsd : v = true ∨ SameDpid ops) :
     (∀ k c, (run R ops).1.reg k = some c →
       c < (run R ops).1.n ∧ (∃ d, k = some d) ∧ ((run R ops).1.conns c).dpid = k ∧
       (outs (run R ops).2).count (upEv true c) = 1 ∧ ((run R ops).1.conns c).disc = false) ∧
     (∀ k, (run R ops).1.reg k =
-      (lastReg (run R ops).2 k).bind fun c => if ((run R ops).1.conns c).disc = true then none else some c) ∧
+      (lastReg (run R ops).2 k).bind fun c =>
+        if ((run R ops).1.conns c).disc = true ∨ ((run R ops).1.conns c).dpid ≠ k then none else some c) ∧
     (∀ d x, (step R (run R ops).1 (.sendTo d x)).2 =
       match (run R ops).1.reg (some d) with
       | none => [.sendRet false]
       | some c => (if ((run R ops).1.conns c).broken = true then [] else [.sent c OFPT_BARRIER_REQUEST x]) ++ [.sendRet true]) := by
-  have h := tinv_run ops
-  have hr := rinv_run ops hsd
+  have h := tinv_run (v := v) ops
+  have hr := rinv_run (v := v) ops hsd
   refine ⟨?_, hr.exact, ?_⟩
   · intro k c hk
     obtain ⟨a1, a2, a3, a4⟩ := hr.sound k c hk
@@ -122,7 +129,7 @@ theorem early_ps (ops : List Op) (b : Bool) (c : Nat) :
       ∃ d fo, lastFeat earlier c = some (d, fo) ∧
         o = finHead (some d) c ++ (psSince earlier c).flatMap fun n => ev2 .portStatus c n) ∧
     ((outs (run R ops).2).count (upEv true c) = 0 → ∀ b' n, Out.ev ⟨b', .portStatus, c, n⟩ ∉ outs (run R ops).2) := by
-  have h := tinv_run ops
+  have h := tinv_run (v := v) ops
   refine ⟨?_, ?_⟩
   · intro later op o earlier a hsplit he
     obtain ⟨x, d, fo, h1, h2, h3, h4⟩ := (allSteps_split _ later earlier (op, o) h.steps hsplit).1 b c a he
@@ -140,7 +147,7 @@ theorem close_only_when_lost (ops : List Op) (op : Op) (c : Nat)
     (h : Out.closed c ∈ (step R (run R ops).1 op).2) :
     op = .eof c ∨ ∃ m, op = .msg c m ∧ ((run R ops).1.conns c).disc = true := by
   revert h
-  apply step_elim (run R ops).1 op (tinv_run ops).sinv (fun r => Out.closed c ∈ r.2 →
+  apply step_elim (run R ops).1 op (tinv_run (v := v) ops).sinv (fun r => Out.closed c ∈ r.2 →
     op = .eof c ∨ ∃ m, op = .msg c m ∧ ((run R ops).1.conns c).disc = true)
   case close =>
     intro c0 _ _ hop hmem
@@ -175,13 +182,19 @@ theorem close_only_when_lost (ops : List Op) (op : Op) (c : Nat)
 same datapath id (a datapath's old connection is gone, as far as the controller knows, before the new one is announced),
 then the literal statement holds: the datapath ids reachable through the nexus are exactly those with a live, fully
 handshaken connection, and the entry is that connection. -/
-theorem registry_exact_no_overlap (ops : List Op) (hsd : SameDpid ops) (hno : NoOverlapAlong (init, []) ops) (c d : Nat) :
+theorem registry_exact_no_overlap (ops : List Op) (hsd : v = true ∨ SameDpid ops) (hno : NoOverlapAlong v (init, []) ops)
+    (c d : Nat) :
     (run R ops).1.reg (some d) = some c ↔ LiveUp (run R ops).1 c d := by
   constructor
   · intro hk
-    obtain ⟨a1, a2, a3, a4⟩ := (rinv_run ops hsd).sound _ c hk
+    obtain ⟨a1, a2, a3, a4⟩ := (rinv_run (v := v) ops hsd).sound _ c hk
     exact ⟨a1, a3, a4, a2⟩
-  · exact complete_run ops hsd hno c d
+  · exact complete_run (v := v) ops hsd hno c d
+
+/-- **listeners_none_is_model.**  The driver executes `runL` (Model/ConnL.lean: the model with application listeners that
+re-enter the controller from inside ConnectionUp / ConnectionDown, which the correspondence run also exercises); without
+such listeners it is, for every configuration and history, the model the theorems above are about. -/
+theorem listeners_none_is_model (cfg : Cfg) (ops : List Op) : runL cfg Lst.none ops = run cfg ops := runL_none cfg ops
 
 /-! ## The statements the code does not satisfy, with their witnesses -/
 
@@ -191,9 +204,9 @@ def hs (c d x : Nat) : List Op :=
 
 /-- the literal reading of the property: *every* datapath id that has a live, announced connection is reachable -/
 def registry_exact_full : Prop :=
-  ∀ ops : List Op, SameDpid ops → ∀ c d, c < (run R ops).1.n → ((run R ops).1.conns c).up = true →
-    ((run R ops).1.conns c).disc = false → ((run R ops).1.conns c).dpid = some d →
-    ∃ c', (run R ops).1.reg (some d) = some c'
+  ∀ ops : List Op, SameDpid ops → ∀ c d, c < (run Cfg.current ops).1.n → ((run Cfg.current ops).1.conns c).up = true →
+    ((run Cfg.current ops).1.conns c).disc = false → ((run Cfg.current ops).1.conns c).dpid = some d →
+    ∃ c', (run Cfg.current ops).1.reg (some d) = some c'
 
 /-- a datapath connects twice (0, then 1) and the NEWER connection is lost first: connection 0 is still live and
 announced, but the registry (which keeps one connection per datapath id and has no fallback) no longer reaches 5.
@@ -207,24 +220,34 @@ theorem registry_exact_full_defect : ¬ registry_exact_full := by
     simp [orphanOps, hs] at h1 h2
     omega
   obtain ⟨c', hc'⟩ := h orphanOps hsd 0 5 (by decide) (by decide) (by decide) (by decide)
-  have hnone : (run R orphanOps).1.reg (some 5) = none := by decide
+  have hnone : (run Cfg.current orphanOps).1.reg (some 5) = none := by decide
   rw [hnone] at hc'; cases hc'
 
 /-- `registry_exact` needs `SameDpid`: a features reply with another datapath id on an established connection moves the
-connection to the new key and leaves the old key behind, pointing at it even after it is closed (known finding C09-5) -/
+connection to the new key and leaves the old key behind, pointing at it even after it is closed (finding C09-5; the code
+as it stands, `Cfg.current`) -/
 def dpidChangeOps : List Op := [.connect] ++ hs 0 5 6 ++ [.msg 0 (.featuresReply 6), .eof 0]
 
 theorem registry_samedpid_needed_defect :
-    (run R dpidChangeOps).1.reg (some 5) = some 0 ∧ ((run R dpidChangeOps).1.conns 0).disc = true ∧
-    ((run R dpidChangeOps).1.conns 0).closed = true := by decide
+    (run Cfg.current dpidChangeOps).1.reg (some 5) = some 0 ∧ ((run Cfg.current dpidChangeOps).1.conns 0).disc = true ∧
+    ((run Cfg.current dpidChangeOps).1.conns 0).closed = true := by decide
+
+/-- … and with fixes/C09-5_features_reply_new_dpid.diff (`Cfg.repaired`) the same history leaves no stale entry: after the
+features reply the connection is reachable under 6 only, after the close under neither (`registry_exact true` needs no
+hypothesis on the datapath ids) -/
+example : (run Cfg.repaired (dpidChangeOps.take 6)).1.reg (some 5) = none ∧
+    (run Cfg.repaired (dpidChangeOps.take 6)).1.reg (some 6) = some 0 ∧
+    (run Cfg.repaired dpidChangeOps).1.reg (some 5) = none ∧ (run Cfg.repaired dpidChangeOps).1.reg (some 6) = none := by decide
+example : ¬ SameDpid dpidChangeOps := by
+  intro h; have := h 0 5 6 (by decide) (by decide); cases this
 
 /-- the wider reading of `early_ps`: every port-status message that arrives on a connection before its ConnectionUp is
 raised once the connection is announced -/
 def early_ps_full : Prop :=
   ∀ (ops : List Op) (c n : Nat) later o earlier,
-    (run R ops).2 = later ++ (Op.msg c (.portStatus n), o) :: earlier →
-    (outs earlier).count (upEv true c) = 0 → (outs (run R ops).2).count (upEv true c) = 1 →
-    Out.ev ⟨true, .portStatus, c, n⟩ ∈ outs (run R ops).2
+    (run Cfg.current ops).2 = later ++ (Op.msg c (.portStatus n), o) :: earlier →
+    (outs earlier).count (upEv true c) = 0 → (outs (run Cfg.current ops).2).count (upEv true c) = 1 →
+    Out.ev ⟨true, .portStatus, c, n⟩ ∈ outs (run Cfg.current ops).2
 
 /-- port-status 9 arrives before the features reply and is dropped (`handle_PORT_STATUS`, of_01.py:369-372, returns when
 `_deferred_port_status is None`); 7 and 8 arrive after it and are raised.  Not treated as a defect: the features reply's
@@ -235,7 +258,7 @@ def earlyPsOps : List Op :=
 
 theorem early_ps_full_defect : ¬ early_ps_full := by
   intro h
-  have := h earlyPsOps 0 9 ((run R earlyPsOps).2.take 5) [] ((run R earlyPsOps).2.drop 6) (by decide) (by decide) (by decide)
+  have := h earlyPsOps 0 9 ((run Cfg.current earlyPsOps).2.take 5) [] ((run Cfg.current earlyPsOps).2.drop 6) (by decide) (by decide) (by decide)
   revert this; decide
 
 /-! ### the four defects repaired by fixes/*.diff, on the model of the code as first read (`Cfg.head`) -/
@@ -269,38 +292,49 @@ theorem dispatch_after_disconnect_defect :
 theorem error_closes_defect :
     Out.closed 0 ∈ (step Cfg.head (run Cfg.head ([.connect] ++ hs 0 5 6)).1 (.msg 0 (.error 9 1 1))).2 := by decide
 
+/-- C09-6 (open finding; repaired by fixes/C09-6_finish_connecting_stops_when_disconnected.diff): with a ConnectionUp listener
+that disconnects the connection, the code as it stands raises the connection-level ConnectionDown BEFORE the
+connection-level ConnectionUp and goes on to FeaturesReceived; with the fix (`stopIfDisc`) the announcement stops. -/
+theorem up_listener_disconnects_defect :
+    (runL Cfg.current { up := some .disc } ([.connect] ++ hs 0 5 6)).2.head?.map (·.2) =
+      some [.reg (some 5) 0, .ev ⟨true, .handshakeComplete, 0, 0⟩, .ev ⟨true, .up, 0, 0⟩, .ev ⟨true, .down, 0, 0⟩,
+            .ev ⟨false, .down, 0, 0⟩, .ev ⟨false, .up, 0, 0⟩, .ev ⟨true, .features, 0, 0⟩, .ev ⟨false, .features, 0, 0⟩] ∧
+    (runL Cfg.current { up := some .disc, stopIfDisc := true } ([.connect] ++ hs 0 5 6)).2.head?.map (·.2) =
+      some [.reg (some 5) 0, .ev ⟨true, .handshakeComplete, 0, 0⟩, .ev ⟨true, .up, 0, 0⟩, .ev ⟨true, .down, 0, 0⟩,
+            .ev ⟨false, .down, 0, 0⟩] := by decide
+
 /-! ## Non-vacuity: the hypotheses of the theorems are met by concrete, non-trivial histories -/
 
 /-- D3's history on the repaired model: ConnectionUp for both connections, one ConnectionDown (for 0), datapath 5 still
 reaches connection 1 -/
 example : SameDpid d3Ops := by
   intro c d d' h1 h2; simp [d3Ops, hs] at h1 h2; omega
-example : (run R d3Ops).1.reg (some 5) = some 1 ∧ lastReg (run R d3Ops).2 (some 5) = some 1 ∧
-    (step R (run R d3Ops).1 (.sendTo 5 99)).2 = [.sent 1 OFPT_BARRIER_REQUEST 99, .sendRet true] ∧
-    (outs (run R d3Ops).2).count (upEv true 0) = 1 ∧ (outs (run R d3Ops).2).count (upEv true 1) = 1 ∧
-    (outs (run R d3Ops).2).count (downEv true 0) = 1 ∧ (outs (run R d3Ops).2).count (downEv true 1) = 0 ∧
-    Out.closed 0 ∈ outs (run R d3Ops).2 := by decide
+example : (run Cfg.current d3Ops).1.reg (some 5) = some 1 ∧ lastReg (run Cfg.current d3Ops).2 (some 5) = some 1 ∧
+    (step Cfg.current (run Cfg.current d3Ops).1 (.sendTo 5 99)).2 = [.sent 1 OFPT_BARRIER_REQUEST 99, .sendRet true] ∧
+    (outs (run Cfg.current d3Ops).2).count (upEv true 0) = 1 ∧ (outs (run Cfg.current d3Ops).2).count (upEv true 1) = 1 ∧
+    (outs (run Cfg.current d3Ops).2).count (downEv true 0) = 1 ∧ (outs (run Cfg.current d3Ops).2).count (downEv true 1) = 0 ∧
+    Out.closed 0 ∈ outs (run Cfg.current d3Ops).2 := by decide
 /-- a reconnect AFTER the stale connection was closed satisfies `NoOverlapAlong`; datapath 5 reaches connection 1 -/
 def reconnectOps : List Op := [.connect] ++ hs 0 5 6 ++ [.eof 0, .connect] ++ hs 1 5 12
-example : NoOverlapAlong (init, []) reconnectOps := noOverlapAlong_of_B _ _ (by decide)
+example : NoOverlapAlong false (init, []) reconnectOps := noOverlapAlong_of_B _ _ _ (by decide)
 example : SameDpid reconnectOps := by
   intro c d d' h1 h2; simp [reconnectOps, hs] at h1 h2; omega
-example : (run R reconnectOps).1.reg (some 5) = some 1 ∧ LiveUp (run R reconnectOps).1 1 5 := by
+example : (run Cfg.current reconnectOps).1.reg (some 5) = some 1 ∧ LiveUp (run Cfg.current reconnectOps).1 1 5 := by
   refine ⟨by decide, by decide, by decide, by decide, by decide⟩
 /-- the overlapping history of D3 does not satisfy it (both connections are live when 1 is announced) -/
-example : noOverlapAlongB (init, []) d3Ops = false := by decide
+example : noOverlapAlongB false (init, []) d3Ops = false := by decide
 /-- the split hypothesis of `up_once`/`early_ps` holds with the barrier reply as the announcing step, and that step's
 output is the announcement followed by the two deferred port-status (7 then 8), not the dropped 9 -/
-example : ∃ o earlier, (run R earlyPsOps).2 = [] ++ (Op.msg 0 (.barrierReply 6), o) :: earlier ∧
+example : ∃ o earlier, (run Cfg.current earlyPsOps).2 = [] ++ (Op.msg 0 (.barrierReply 6), o) :: earlier ∧
     Out.ev ⟨true, .up, 0, 0⟩ ∈ o ∧ psSince earlier 0 = [7, 8] ∧
     o = finHead (some 5) 0 ++ ev2 .portStatus 0 7 ++ ev2 .portStatus 0 8 :=
   ⟨_, _, rfl, by decide, by decide, by decide⟩
 /-- a send error on an announced connection: disconnected, ConnectionDown deferred until the task closes it -/
 example : let ops := [Op.connect] ++ hs 0 5 6 ++ [.sockFail 0, .sendTo 5 1]
-    ((run R ops).1.conns 0).disc = true ∧ (outs (run R ops).2).count (downEv true 0) = 0 ∧
-    ((run R ops).1.conns 0).broken = true ∧ Out.closed 0 ∉ outs (run R ops).2 ∧
-    (outs (run R (ops ++ [.eof 0])).2).count (downEv true 0) = 1 := by decide
+    ((run Cfg.current ops).1.conns 0).disc = true ∧ (outs (run Cfg.current ops).2).count (downEv true 0) = 0 ∧
+    ((run Cfg.current ops).1.conns 0).broken = true ∧ Out.closed 0 ∉ outs (run Cfg.current ops).2 ∧
+    (outs (run Cfg.current (ops ++ [.eof 0])).2).count (downEv true 0) = 1 := by decide
 /-- `close_only_when_lost`: a message on a disconnected connection makes the task close it -/
-example : Out.closed 0 ∈ (step R (run R ([.connect] ++ hs 0 5 6 ++ [.disc 0])).1 (.msg 0 (.packetIn 1))).2 := by decide
+example : Out.closed 0 ∈ (step Cfg.current (run Cfg.current ([.connect] ++ hs 0 5 6 ++ [.disc 0])).1 (.msg 0 (.packetIn 1))).2 := by decide
 
 end Pox.C09
